@@ -220,6 +220,7 @@ def run(ctx):
             (BP + ".end_section", "end_pop", BP),
             (BP + ".end_multisection", "end_pop", BP),
             (BP + ".end_abstracttype", "end_pop", BP),
+            (SPq + ".start_schema", "start_schema", SPq),
             (SPq + ".end_schema", "end_schema", SPq),
             (CPq + ".characters_description",
              "component_characters_description", CPq),
